@@ -82,8 +82,9 @@ CHECKS = {
              "(Props/Examples.lean), for MultiCorridor, MultiAgentGridSim, ReachTheTargetSim (every reachable state, "
              "Props/Reach.lean), for the two pacman classes (Props/Pacman.lean, Props/PacmanHist.lean) and in part for BroadcastSim of "
              "comms_blocking.py (Props/Broadcast.lean: invariant, observations, no-raise under BC.cfgHypb, reset forgets, "
-             "soundness of delivery; float64 messages tied per call within 2^-40; completeness of delivery judged at run "
-             "time by BC.specBC); gymnasium's `contains` is monitored at run time, not proved; rejected "
+             "delivery sound and complete - broadcast_delivery -, the step clause of the judge - "
+             "broadcast_hist_step_partial; float64 messages tied per call within 2^-40; the whole-history statement "
+             "broadcast_hist is judged at run time by BC.specBC); gymnasium's `contains` is monitored at run time, not proved; rejected "
              "assignments through every public setter of every component of a session (harness/poke.py) must leave what was "
              "configured in force; how a Python value is read as a "
              "point (harness/c02sims.py dump_point) is harness code; C02-E1 (the comms_blocking example's "
